@@ -60,6 +60,7 @@ fn main() {
             seed: rng.next_u64(),
             checkpoints_at: vec![],
             stable_ms: 120,
+            drain_every: 1,
         };
         rep.eval();
         let mut cfg = cfg;
